@@ -811,7 +811,11 @@ func (x *Exec) siteAsserts(st *State, fr *Frame, kind, arg string, bind map[stri
 				continue
 			}
 			if len(hdr) > 1 && hdr[1] != arg {
-				continue
+				// "call Type.Method": qualified form, matched against the callee's full name
+				q := strings.NewReplacer("(", "", ")", "", "*", "").Replace(x.curCallee)
+				if !(kind == "call" && strings.Contains(hdr[1], ".") && x.curCallee != "" && strings.HasSuffix(q, "."+hdr[1]) || (kind == "call" && strings.Contains(hdr[1], ".") && strings.HasSuffix(q, "/"+hdr[1]))) {
+					continue
+				}
 			}
 			if loopN != 0 && !x.inLoop(fr, loopN) {
 				continue
